@@ -79,6 +79,10 @@ def run(model, col, tier):
                     size_sub = n.value
         # inline use without names
         env_names = {k: v for k, v in vnames.items()}
+        from ..sem import local_env, resolve
+
+        f_env = {k: v for k, v in local_env(f).items() if k not in vnames}
+        rif_test = resolve(rif.test, f_env)
         ok_grid = True
         wrong = []
         cannot = None
@@ -86,7 +90,7 @@ def run(model, col, tier):
             for v_ in range(-3, n_ + 4):
                 env = {k: (v_ if r == "v" else n_) for k, r in env_names.items()}
                 try:
-                    rej = bool(ev(rif.test, env))
+                    rej = bool(ev(rif_test, env))
                 except CannotEval as e:
                     cannot = str(e)
                     break
@@ -265,9 +269,12 @@ def run(model, col, tier):
     count_ok = False
     fams = set(oracles.SWIZZLE_FAMILIES)
     cparam = hp[1] if len(hp) > 1 else None
+    from ..sem import local_env as _lenv, resolve as _resolve
+
+    helper_env = _lenv(helper)
     for n in ast.walk(helper):
         if isinstance(n, ast.If):
-            t = n.test
+            t = _resolve(n.test, helper_env)
             raises = [unparse(c.func) for s in n.body for c in ast.walk(s) if isinstance(c, ast.Call) and last_attr(c) == "Raise"]
             if not raises:
                 continue
